@@ -2,8 +2,8 @@
 
 // Command convhook is the hook process of the C15 application cases (kept free of heavy imports: it is started
 // once per conversion step). It logs what it received (rule, objects) to the per-case log and answers as the
-// per-case plan says: exit 1, empty response, malformed response, failedMessage, or converted objects
-// (all / one missing / one duplicated). Shared shapes: Plan, HookLog, RecvObj in cmd/conv/apply.go.
+// per-case plan says: exit 1, empty response, malformed response, failedMessage, failedMessage together with
+// the converted objects ("failobj"), or converted objects (all / one missing / one duplicated). Shared shapes: Plan, HookLog, RecvObj in cmd/conv/apply.go.
 package main
 
 import (
@@ -145,7 +145,12 @@ func hookMain() int {
 			conv = append(conv, conv[len(conv)-1])
 		}
 	}
-	b, _ := json.Marshal(map[string]interface{}{"convertedObjects": conv})
+	resp := map[string]interface{}{"convertedObjects": conv}
+	if kind == "failobj" {
+		// the hook reports a failure although it wrote every object converted to the promised version
+		resp["failedMessage"] = failMessage(key)
+	}
+	b, _ := json.Marshal(resp)
 	os.WriteFile(out, b, 0o644)
 	return 0
 }
